@@ -1,5 +1,6 @@
 #![cfg_attr(feature = "nightly", feature(generic_const_exprs))]
 #![cfg_attr(feature = "nightly", allow(incomplete_features))]
+mod binfmt;
 mod common;
 mod concat;
 mod data;
